@@ -1,4 +1,5 @@
 import Martian.Lemmas.Marbl
+import Martian.Generated.Marbl
 /-!
 C19 — marbl streams decode to the logged messages with intact, ordered bodies.
 Only property theorems and non-vacuity examples live here.
@@ -8,6 +9,18 @@ string fed to the reader, every list of read results of the wrapped body, every 
 -/
 namespace Martian.Props.C19
 open Martian Martian.Marbl
+
+/-! ## facts regenerated from /repo on every check -/
+
+/-- The constants the model hard-codes are the ones in the source now: frame type codes (`frameHead 1`
+/ `frameHead 2`, the dispatch of `readFrameWith`), message type codes (the driver's `mt`), the
+fixed-size reads of `ReadFrame` (10, 8, 9) and the fact that the header name/value buffer is sized
+by `int(nl)+int(vl)` (`readFrame := readFrameWith sumInt`). An edit of any of them breaks this
+check (finite table, by `decide`). -/
+theorem facts_marbl_layout :
+    (Generated.Marbl.headerFrame, Generated.Marbl.dataFrame, Generated.Marbl.request, Generated.Marbl.response,
+      Generated.Marbl.fixedReads, Generated.Marbl.headerSumWidened) = (1, 2, 1, 2, [10, 8, 9], true) := by
+  decide
 
 /-! ## codec: decode ∘ encode = id -/
 
